@@ -328,6 +328,9 @@ impl Command for OnePalette {
     }
 
     fn run(&self, _buf: &mut Buffer, _caret: &mut Caret, bgi: &mut Bgi) -> EngineResult<CallbackAction> {
+        if !(0..64).contains(&self.value) {
+            return Err(anyhow::Error::msg("Invalid palette color"));
+        }
         bgi.set_palette_color(self.color, self.value as u8);
         Ok(CallbackAction::Update)
     }
